@@ -83,11 +83,11 @@ type bufPrim struct {
 }
 
 type codecX struct {
-	l       *Loaded
-	info    *types.Info
-	bufType *types.Named
-	writes  map[*types.Func]bufPrim
-	reads   map[*types.Func]bufPrim
+	l        *Loaded
+	info     *types.Info
+	bufType  *types.Named
+	writes   map[*types.Func]bufPrim
+	reads    map[*types.Func]bufPrim
 	problems []string // problems found while summarising buffer primitives
 }
 
@@ -210,13 +210,11 @@ func (x *codecX) writePrim(f *types.Func) (bufPrim, error) {
 			}
 		}
 	}
-	// WriteString: Write16(uint16(len(s))); for i := 0; i < len(s); i++ { Write8(byte(s[i])) }
-	if len(body) == 2 {
-		if x.isWriteStringBody(body, param) {
-			p := bufPrim{Kind: "str"}
-			x.writes[f] = p
-			return p, nil
-		}
+	// WriteString: u16 length, then exactly the bytes (byte loop or copy into append(len(s))).
+	if x.writeStringPrim(fi, param) {
+		p := bufPrim{Kind: "str"}
+		x.writes[f] = p
+		return p, nil
 	}
 	return bufPrim{}, cerr(fi.Decl.Pos(), "%s: body is not a recognised write primitive", fi.Key)
 }
@@ -371,52 +369,13 @@ func (x *codecX) readPrim(f *types.Func) (bufPrim, error) {
 		return bufPrim{}, fmt.Errorf("no body for %s", funcKey(f))
 	}
 	body := fi.Decl.Body.List
-	// Base: v, ok := b.consume(k); if !ok { return 0 }; return order.UintN(v) | uint8(v[0])
-	if len(body) == 3 {
-		as, ok1 := body[0].(*ast.AssignStmt)
-		ifs, ok2 := body[1].(*ast.IfStmt)
-		ret, ok3 := body[2].(*ast.ReturnStmt)
-		if ok1 && ok2 && ok3 && len(as.Lhs) == 2 && len(as.Rhs) == 1 && len(ret.Results) == 1 {
-			call, ok := as.Rhs[0].(*ast.CallExpr)
-			if ok && calleeKey(x.info, call) == "p9.buffer.consume" && len(call.Args) == 1 {
-				k, _ := constInt(x.info, call.Args[0])
-				vobj := x.info.Defs[as.Lhs[0].(*ast.Ident)]
-				okobj := x.info.Defs[as.Lhs[1].(*ast.Ident)]
-				// if !ok { return 0 }
-				un, isNot := ifs.Cond.(*ast.UnaryExpr)
-				if !isNot || un.Op != token.NOT || objOf(x.info, un.X) != okobj || !endsInReturn(ifs.Body) {
-					return bufPrim{}, cerr(ifs.Pos(), "%s: consume result is not checked before use", fi.Key)
-				}
-				r := unparen(ret.Results[0])
-				if c, ok := r.(*ast.CallExpr); ok {
-					ck := calleeKey(x.info, c)
-					if strings.Contains(ck, "encoding/binary.") && strings.Contains(ck, ".Uint") {
-						if !x.isOrderVar(c.Fun) {
-							return bufPrim{}, cerr(c.Pos(), "%s: byte order is not the package variable 'order'", fi.Key)
-						}
-						bits := ck[strings.LastIndex(ck, "Uint")+4:]
-						w := map[string]int{"16": 2, "32": 4, "64": 8}[bits]
-						if w == 0 || int(k) != w || len(c.Args) != 1 || objOf(x.info, c.Args[0]) != vobj {
-							return bufPrim{}, cerr(c.Pos(), "%s: consumes %d bytes but decodes %s", fi.Key, k, ck)
-						}
-						p := bufPrim{Kind: baseWidth[w]}
-						x.reads[f] = p
-						return p, nil
-					}
-					// uint8(v[0])
-					if tv, ok := x.info.Types[c.Fun]; ok && tv.IsType() && len(c.Args) == 1 {
-						r = unparen(c.Args[0])
-					}
-				}
-				if ix, ok := r.(*ast.IndexExpr); ok && k == 1 && objOf(x.info, ix.X) == vobj {
-					if i, ok := constInt(x.info, ix.Index); ok && i == 0 {
-						p := bufPrim{Kind: "u8"}
-						x.reads[f] = p
-						return p, nil
-					}
-				}
-			}
+	// Base: the path summary "consume(K) ok → decode of those K bytes, failed → 0".
+	if p, applies, err := x.readBasePrim(fi); applies {
+		if err != nil {
+			return bufPrim{}, err
 		}
+		x.reads[f] = p
+		return p, nil
 	}
 	// Delegation: return T(b.ReadX()) [& permissionsMask]
 	if len(body) == 1 {
@@ -440,7 +399,9 @@ func (x *codecX) readPrim(f *types.Func) (bufPrim, error) {
 		}
 	}
 	// ReadString.
-	if x.isReadStringBody(fi) {
+	if isStr, err := x.readStringPrim(fi); err != nil {
+		return bufPrim{}, err
+	} else if isStr {
 		p := bufPrim{Kind: "str"}
 		x.reads[f] = p
 		return p, nil
@@ -454,113 +415,6 @@ func endsInReturn(b *ast.BlockStmt) bool {
 	}
 	_, ok := b.List[len(b.List)-1].(*ast.ReturnStmt)
 	return ok
-}
-
-// isReadStringBody checks:
-//
-//	l := b.Read16()
-//	if !b.has(int(l)) { b.markOverrun(); return "" }
-//	bs := make([]byte, l)
-//	for i := 0; i < int(l); i++ { bs[i] = byte(b.Read8()) }
-//	return string(bs)
-func (x *codecX) isReadStringBody(fi *FuncInfo) bool {
-	body := fi.Decl.Body.List
-	if len(body) != 5 {
-		return false
-	}
-	as, ok := body[0].(*ast.AssignStmt)
-	if !ok || len(as.Lhs) != 1 || len(as.Rhs) != 1 {
-		return false
-	}
-	c0, ok := as.Rhs[0].(*ast.CallExpr)
-	if !ok {
-		return false
-	}
-	if p, err := x.readPrim(callee(x.info, c0)); err != nil || p.Kind != "u16" || p.Mask {
-		return false
-	}
-	lobj := x.info.Defs[as.Lhs[0].(*ast.Ident)]
-	ifs, ok := body[1].(*ast.IfStmt)
-	if !ok {
-		return false
-	}
-	un, ok := ifs.Cond.(*ast.UnaryExpr)
-	if !ok || un.Op != token.NOT {
-		return false
-	}
-	hc, ok := un.X.(*ast.CallExpr)
-	if !ok || calleeKey(x.info, hc) != "p9.buffer.has" || len(hc.Args) != 1 {
-		return false
-	}
-	if a, _, _ := x.stripConvMask(hc.Args[0]); objOf(x.info, a) != lobj {
-		return false
-	}
-	if !endsInReturn(ifs.Body) {
-		return false
-	}
-	marks := false
-	for _, s := range ifs.Body.List {
-		if es, ok := s.(*ast.ExprStmt); ok {
-			if c, ok := es.X.(*ast.CallExpr); ok && calleeKey(x.info, c) == "p9.buffer.markOverrun" {
-				marks = true
-			}
-		}
-	}
-	if !marks {
-		return false
-	}
-	mk, ok := body[2].(*ast.AssignStmt)
-	if !ok || len(mk.Rhs) != 1 {
-		return false
-	}
-	mc, ok := mk.Rhs[0].(*ast.CallExpr)
-	if !ok || len(mc.Args) != 2 {
-		return false
-	}
-	if id, ok := mc.Fun.(*ast.Ident); !ok || id.Name != "make" {
-		return false
-	}
-	if a, _, _ := x.stripConvMask(mc.Args[1]); objOf(x.info, a) != lobj {
-		return false
-	}
-	bsobj := x.info.Defs[mk.Lhs[0].(*ast.Ident)]
-	fs, ok := body[3].(*ast.ForStmt)
-	if !ok || len(fs.Body.List) != 1 {
-		return false
-	}
-	ivar, ok := x.simpleCounter(fs)
-	if !ok {
-		return false
-	}
-	be, ok := fs.Cond.(*ast.BinaryExpr)
-	if !ok || be.Op != token.LSS || objOf(x.info, be.X) != ivar {
-		return false
-	}
-	if a, _, _ := x.stripConvMask(be.Y); objOf(x.info, a) != lobj {
-		return false
-	}
-	la, ok := fs.Body.List[0].(*ast.AssignStmt)
-	if !ok || len(la.Lhs) != 1 || len(la.Rhs) != 1 {
-		return false
-	}
-	ix, ok := la.Lhs[0].(*ast.IndexExpr)
-	if !ok || objOf(x.info, ix.X) != bsobj || objOf(x.info, ix.Index) != ivar {
-		return false
-	}
-	rv, _, _ := x.stripConvMask(la.Rhs[0])
-	rc, ok := unparen(rv).(*ast.CallExpr)
-	if !ok {
-		return false
-	}
-	if p, err := x.readPrim(callee(x.info, rc)); err != nil || p.Kind != "u8" {
-		return false
-	}
-	ret, ok := body[4].(*ast.ReturnStmt)
-	if !ok || len(ret.Results) != 1 {
-		return false
-	}
-	rr, _, _ := x.stripConvMask(ret.Results[0])
-	return objOf(x.info, rr) == bsobj
 }
 
 // ---------------------------------------------------------------------------
@@ -1017,7 +871,7 @@ func (c *extractCtx) decodeStmts(stmts []ast.Stmt) ([]LItem, error) {
 	var out []LItem
 	var maskVar types.Object
 	var maskItem *LItem
-	var countVar types.Object   // n := b.Read16()
+	var countVar types.Object // n := b.Read16()
 	var countPos token.Pos
 	resetSeen := map[string]bool{}
 	var payloadCountVar types.Object // count := b.Read32()
